@@ -247,9 +247,13 @@ def run(ctx):
                 if da in WRITERS or db in WRITERS:
                     add((da, db), "mm", iters)
     # (a') every lazily-built derived structure against the writers that change the key map (predicted protected or not)
+    # These get more exposure than the other pairs: the window is one walk over the key map per build, so the mixes run
+    # longer, with two writers and two builders as well, and - for structures that are built once per swamp - on more swamps.
     for r_ in LAZY_BUILDERS:
+        sw_ = 2 if r_ == "fstream_cold" else 8
         for w in ("set_new", "del", "shift"):
-            add((w, r_), "mm", iters)
+            add((w, r_), "mm", min(260, iters * 3), swamps=sw_)
+            add((w, w, r_, r_), "mm", min(180, iters * 2), swamps=sw_)
     # (a'') every writer of record content against every reader of record content
     for w in CONTENT_WRITERS:
         for r_ in CONTENT_READERS:
